@@ -48,6 +48,10 @@ def mod_selections(names, start, rename=False):
     out = [[]]
     out += [[s] for s in singles]
     out += [[a, b] for a, b in itertools.permutations(singles, 2)]
+    # the specification names another residue name than the residue with that id has: no residue is selected
+    for (i, rn, mname) in singles:
+        wrong = "GLY" if rn == "ALA" else "ALA"
+        out.append([(i, rn, mname, wrong)])
     return out
 
 
@@ -57,7 +61,7 @@ def ref_mods(spec, rg, sel):
     atoms = [dict(a) for a in exp["atoms"]]
     inter = dict(exp["inter"])
     order = sorted(range(rg["n"]), key=lambda i: rg["resids"][i])
-    targets = [(i, mname) for i, rn, mname in sel] if sel else [(order[0], "N-ter"), (order[-1], "C-ter")]
+    targets = [(x[0], x[2]) for x in sel if len(x) == 3] if sel else [(order[0], "N-ter"), (order[-1], "C-ter")]
     named = set()
     extra = []
     for node, mname in targets:
@@ -90,7 +94,7 @@ def check_mods(case, stats):
                     continue
                 evals += 1
                 case1 = dict(kind="mods1", names=names, start=start, keymode=keymode, sel=[list(s) for s in sel], rename=bool(case.get("rename")))
-                mods_arg = [[f"{rn}{rg['resids'][i]}", mname] for i, rn, mname in sel]
+                mods_arg = [[f"{x[3] if len(x) == 4 else x[1]}{rg['resids'][x[0]]}", x[2]] for x in sel]
                 key_perm = [start - 1 + i for i in range(n)] if keymode == "resid-1" else [10 + 2 * i for i in range(n)]
                 try:
                     ff = H.parse_ff([("ff", ff_text)])
